@@ -145,6 +145,17 @@ func (r *Rec) stallDump() {
 			n := runtime.Stack(buf, true)
 			if r.curFile != "" {
 				os.WriteFile(strings.TrimSuffix(r.curFile, ".cur")+".stall.txt", buf[:n], 0o644)
+				r.mu.Lock()
+				cur := r.cur
+				r.mu.Unlock()
+				os.WriteFile(r.curFile, []byte(cur), 0o644) // the case that did not finish (Mark writes it only when heavy)
+			}
+			if os.Getenv("VERIF_STALL_EXIT") != "" {
+				// units whose cases take microseconds (parsers): give up on the shard now instead of
+				// waiting for the driver's watchdog; the driver treats exit code 98 like its own
+				// watchdog firing (first strike of the two-strike hang rule).
+				fmt.Fprintf(os.Stderr, "vlib: no case finished for %v, stall dump written, exiting 98\n", limit)
+				os.Exit(98)
 			}
 			return
 		}
